@@ -626,8 +626,97 @@ def make_wb(seed, i):
     return gen_workbook(random.Random('fvmon/C10/%s/%s' % (seed, i)))
 
 
+# -- a cycle through a range whose other members are ordinary formulas -----------------
+
+def make_range_case(seed, i):
+    rng = random.Random('fvmon/C10/range/%s/%s' % (seed, i))
+    n = rng.randint(2, 4)
+    col = 'B'
+    k_cyc = rng.randint(1, n)                   # the member that closes the cycle
+    items, expect = [], {}
+    consts = {'F%d' % r: float(rng.randint(1, 9)) for r in range(1, 5)}
+    items += list(consts.items())
+    rng_text = '%s1:%s%d' % (col, col, n)
+    via = rng.choice(('direct', 'name', 'wide'))
+    if via == 'name':
+        items.append(('BLOCK', '=$B$1:$B$%d' % n))
+        total = '=SUM(BLOCK)'
+    elif via == 'wide':
+        total = '=SUM(B1:C%d)' % n             # total over a wider rectangle
+        rng_text = 'B1:C%d' % n
+    else:
+        total = '=SUM(%s)' % rng_text
+    items.append(('A1', total))
+    vals = dict(consts)
+    for r in range(1, n + 1):
+        cell = '%s%d' % (col, r)
+        if r == k_cyc:
+            items.append((cell, rng.choice(('=A1', '=A1+1', '=IF(TRUE,A1,0)'))))
+            expect[cell] = '#CIRC!'
+            continue
+        depth = rng.randint(0, 3)
+        if depth == 0:
+            v = float(rng.randint(1, 9))
+            items.append((cell, v))
+        else:
+            # a chain G<r>_1 .. of helper formulas over the constants
+            prev, v = 'F%d' % r, consts['F%d' % r]
+            for d_ in range(1, depth):
+                h = '%s%d' % ('GHI'[d_ - 1], r)
+                k = float(rng.randint(2, 4))
+                items.append((h, '=%s*%d' % (prev, k)))
+                v = v * k
+                expect[h] = v
+                prev = h
+            k = float(rng.randint(1, 9))
+            items.append((cell, '=%s+%d' % (prev, k)))
+            v = v + k
+        expect[cell] = v
+        vals[cell] = v
+        reader = 'E%d' % r
+        items.append((reader, '=%s+1' % cell))
+        expect[reader] = v + 1
+    expect['A1'] = '#CIRC!'
+    items.append(('D1', '=A1+1'))
+    expect['D1'] = '#CIRC!'
+    rng.shuffle(items)
+    return {'kind': 'range-member', 'id': '%s/%s' % (seed, i), 'items': [list(x) for x in items],
+            'expect': expect, 'via': via, 'range': rng_text}
+
+
+def check_range_case(case, ctx):
+    import formulas
+    try:
+        m = formulas.ExcelModel().from_dict(dict(map(tuple, case['items'])))
+        m.finish(circular=True)
+        sol = m.calculate()
+    except Exception as ex:
+        ctx.violation('range-member:raised:%s' % type(ex).__name__, {
+            'case': case, 'observed': '%s: %s' % (type(ex).__name__, str(ex)[:150]),
+            'accepted': ['a solution']})
+        return
+    ctx.case(('range-member', case['id']))
+    for cell, want in sorted(case['expect'].items()):
+        got = xl.canon(xl.scalar(sol[cell])) if cell in sol else ('missing',)
+        w = xl.c_err(want) if isinstance(want, str) else xl.c_num(want)
+        if isinstance(want, str):
+            ctx.count('monitor.range-cycle-marked')
+        else:
+            ctx.count('monitor.range-member-isolated')
+        if not xl.same(got, w, rel=1e-12):
+            ctx.violation('range-member:%s:%s:%s' % (
+                'cycle-not-marked' if isinstance(want, str) else 'isolated-member-changed',
+                case['via'], got[1] if got[0] == 'err' else got[0]), {
+                'case': case, 'cell': cell, 'observed': xl.show(got),
+                'accepted': [xl.show(w)], 'cyclic_range': case['range']})
+            return
+
+
 def plan(tier, seed):
     specs = []
+    nr = 400 if tier == 'quick' else 6000
+    for lo in range(0, nr, 200):
+        specs.append({'kind': 'range-members', 'lo': lo, 'hi': lo + 200})
     total = 1 << 16
     shards = 12
     per = total // shards + 1
@@ -649,6 +738,8 @@ def check_case(case, ctx):
     if case['kind'] == 'graph':
         adj = {int(k): [int(x) for x in v] for k, v in case['adj'].items()}
         check_graph(adj, ctx, random.Random(0))
+    elif case['kind'] == 'range-member':
+        check_range_case(case, ctx)
     else:
         check_workbook(case, ctx)
 
@@ -656,7 +747,13 @@ def check_case(case, ctx):
 def run(spec, ctx):
     k = spec['kind']
     rng = ctx.rng
-    if k == 'graphs4':
+    if k == 'range-members':
+        for i in range(spec['lo'], spec['hi']):
+            case = make_range_case(spec['seed'], i)
+            ctx.open_case({'kind': 'range-member', 'id': case['id']})
+            check_range_case(case, ctx)
+        ctx.sample({'range_member_case': dict(map(tuple, case['items']))})
+    elif k == 'graphs4':
         n = 0
         for adj in graphs_of(4, spec['lo'], spec['hi']):
             check_graph(adj, ctx, rng if n % 16 == 0 else None)
@@ -713,7 +810,9 @@ def finalize(agg, tier):
     c, inc, viols = agg['counters'], [], []
     for k, floor in (('monitor.cycles', 70000), ('monitor.workbook', 400),
                      ('monitor.on-unguarded-cycle', 100), ('monitor.isolated', 500),
-                     ('monitor.lazy-value', 300), ('monitor.unselected-cycle', 20)):
+                     ('monitor.lazy-value', 300), ('monitor.unselected-cycle', 20),
+                     ('monitor.range-member-isolated', 800),
+                     ('monitor.range-cycle-marked', 800)):
         if c.get(k, 0) < floor:
             inc.append('monitor %s saw %d events (< %d)' % (k, c.get(k, 0), floor))
     by = {}
